@@ -235,6 +235,44 @@ macro_rules! opt_elem {
 opt_elem!(i32);
 opt_elem!(u8);
 
+impl Elem for Option<N64> {
+    const TY: ElemTy = ElemTy::OptN64;
+    fn from_raw(r: i64) -> Self {
+        let x = f64::from_bits(r as u64);
+        if x.is_nan() {
+            None
+        } else {
+            Some(n64(x))
+        }
+    }
+    fn to_raw(&self) -> i64 {
+        match self {
+            None => f64::NAN.to_bits() as i64,
+            Some(v) => v.raw().to_bits() as i64,
+        }
+    }
+}
+
+impl NanElem for Option<N64> {
+    type Plain = N64;
+    fn missing(&self) -> bool {
+        self.is_none()
+    }
+    fn nn_raw(x: &<Option<N64> as MaybeNan>::NotNan) -> i64 {
+        let p = x as *const <Option<N64> as MaybeNan>::NotNan as *const Option<N64>;
+        match unsafe { &*p } {
+            None => f64::NAN.to_bits() as i64,
+            Some(v) => v.raw().to_bits() as i64,
+        }
+    }
+    fn plain_of_raw(r: i64) -> N64 {
+        n64(f64::from_bits(r as u64))
+    }
+    fn raw_of_plain(p: &N64) -> i64 {
+        p.raw().to_bits() as i64
+    }
+}
+
 /// A record ordered by its key only: two elements can compare equal and still
 /// be different elements. Arithmetic acts on the key and keeps the left tag.
 #[derive(Clone, Copy, Debug)]
@@ -317,7 +355,7 @@ impl OrdElem for Keyed {
 /// numeric value of a raw encoding, for reference computations
 pub fn num_of_raw(ty: ElemTy, raw: i64) -> NumVal {
     match ty {
-        ElemTy::N64 | ElemTy::F64 => NumVal::F(f64::from_bits(raw as u64)),
+        ElemTy::N64 | ElemTy::F64 | ElemTy::OptN64 => NumVal::F(f64::from_bits(raw as u64)),
         ElemTy::F32 => NumVal::F(f32::from_bits(raw as u32) as f64),
         ElemTy::U64 => NumVal::I(raw as u64 as i128),
         ElemTy::Keyed => NumVal::I((raw >> 32) as i128),
